@@ -10,13 +10,13 @@ import (
 // Contract expression language: parser.
 
 type Expr struct {
-	Kind string // num str id field call index update un bin quant cond
-	Tok  string // operator / identifier / literal
-	Args []*Expr
-	Vars []QVar  // quant
-	Trig []*Expr // quant triggers (all groups, flattened)
+	Kind       string // num str id field call index update un bin quant cond
+	Tok        string // operator / identifier / literal
+	Args       []*Expr
+	Vars       []QVar    // quant
+	Trig       []*Expr   // quant triggers (all groups, flattened)
 	TrigGroups [][]*Expr // one entry per {...} group: alternative patterns
-	Pos  int
+	Pos        int
 }
 
 type QVar struct {
